@@ -52,6 +52,10 @@ func (a *SimApp) authenticate(method string, c context.Context, w http.ResponseW
 		}
 	}
 	switch outcome {
+	case "errtrue":
+		// a legal shape: when an error is returned the flag is to be ignored
+		a.ev(method, "", nil, "err", f != nil)
+		return c, true, errInjected
 	case "err":
 		a.ev(method, "", nil, "err", f != nil)
 		return c, false, errInjected
@@ -86,7 +90,14 @@ func (a fedProto) AuthenticatePostInbox(c context.Context, w http.ResponseWriter
 }
 
 func (a *SimApp) page(method string, r *http.Request) (vocab.ActivityStreamsOrderedCollectionPage, error) {
-	iri := "https://" + r.Host + r.URL.Path
+	scheme := a.srv.Spec.Scheme
+	if scheme == "" {
+		scheme = "https"
+	}
+	iri := scheme + "://" + r.Host + r.URL.Path
+	if r.URL.RawQuery != "" {
+		iri += "?" + r.URL.RawQuery
+	}
 	if f, _ := a.call(method, iri); f != nil {
 		a.ev(method, iri, nil, "err", true)
 		return nil, errInjected
